@@ -159,9 +159,12 @@ func (b *Bytes) store(addr model.Addr, bs []byte) int {
 	b.blocks = append(b.blocks, byteBlock{})
 	copy(b.blocks[idx+1:], b.blocks[idx:])
 
+	// The block has to own its bytes: bs belongs to the stored constant.
+	bytes := make([]byte, end-addr)
+	copy(bytes, bs)
 	b.blocks[idx] = byteBlock{
 		begin: addr,
-		bytes: bs[:end-addr],
+		bytes: bytes,
 	}
 
 	return int(end - addr)
